@@ -107,7 +107,7 @@ Definition rows_of (rows : list arow) (z a : Z) : list arow :=
 
 (* ------------------------------------------------------------------ expressions *)
 Definition c (q : Q) : expr := ECst q.
-Definition LN2 : expr := ELn (ECst 2).
+Definition LN2 : expr := EVar 0.   (* ln 2: the environment of these expressions is ActEval.ln2_env_R *)
 Definition eexp_neg (e : expr) : expr := EExp (ENeg e).
 Definition expm1 (e : expr) : expr := ESub (EExp e) (c 1).
 Infix "+:" := EAdd (at level 50, left associativity).
